@@ -367,6 +367,10 @@ func builtinModels(in *Interp, site ssa.CallInstruction, name string, args []Val
 			return kInt(0), true
 		}
 		return kInt(-1), true
+	case "(context.Context).Err":
+		// the tables are about requests whose context is alive; a cancelled
+		// context is a fault, explored where faults are (the file server)
+		return kNil, true
 	case "strconv.Itoa":
 		return in.itoaText(args[0]), true
 	case "strconv.FormatInt", "strconv.FormatUint":
